@@ -84,7 +84,7 @@ func parseGetSetMethods(pkg *packages.Package, stTyp types.Type, unexportedField
 				if results != nil && len(results.List) > 0 {
 					continue
 				}
-				if params == nil || len(params.List) > 1 {
+				if params == nil || len(params.List) != 1 {
 					continue
 				}
 				paramTyp := pkg.TypesInfo.TypeOf(params.List[0].Type)
@@ -101,7 +101,7 @@ func parseGetSetMethods(pkg *packages.Package, stTyp types.Type, unexportedField
 				if params != nil && len(params.List) > 0 {
 					continue
 				}
-				if results == nil || len(results.List) > 1 {
+				if results == nil || len(results.List) != 1 {
 					continue
 				}
 				resultTyp := pkg.TypesInfo.TypeOf(results.List[0].Type)
